@@ -386,6 +386,9 @@ Definition enc_consume (pany : bool) (p : encprim) (data : bytes) (ext : option 
 (* ---------------------------------------------------------------- Sign *)
 Record sigent := { se_prot : cosemap; se_raw : bytes; se_unprot : option cosemap; se_sig : option bytes }.
 
+(* one entry as SignMessage.WithSign builds it: the two buckets (None = a nil map) and the signature *)
+Record sigout := mk_sigout { so_prot : option cosemap; so_unprot : option cosemap; so_sig : bytes }.
+
 Definition sig_decode (raw : bytes) : res sigent :=
   do fs <- struct_fields 3 raw;
   match fs with
